@@ -398,7 +398,7 @@ class Verdict:
             for i, (key, (n, case, sym, detail)) in enumerate(sorted(self.violations.items(), key=lambda kv: -kv[1][0])):
                 h = hashlib.sha1(key.encode()).hexdigest()[:12]
                 path = os.path.join(rdir, h + ".json")
-                if i < 200:
+                if i < int(os.environ.get('VERIF_REPLAY_CAP', '200')):
                     with open(path, "w") as f:
                         json.dump({"property": self.prop, "symptom": sym, "count": n, "case": case, "detail": detail, "seed": SEED, "tier": self.tier}, f, indent=1, default=str)
                 if i < 20:
@@ -442,7 +442,7 @@ class _Env(dict):
         dict.__init__(self, case)
 
     def __missing__(self, k):
-        return None
+        return _ENVF.get(k)
 
 
 def rng(salt=""):
